@@ -459,6 +459,27 @@ def resource_api(r):
                 cat.field(which, n, (rack if which == "rack" else tome).fqn)
             cq = api.main.message(f"GetCatalog{tag}Request"); cq.field("name", 1, "string")
             r.choice(api.services).rpc(f"GetCatalog{tag}", cq.fqn, cat.fqn, http=("get", "/v1/{name=catalogs%s/*}" % tag), sigs=["name"])
+    if r.random() < 0.7:
+        # file-level definitions that carry one of the five COMMON resource types, reached only through references: the service sees
+        # them like any other definition (location_path next to common_location_path)
+        commons = [("locations.googleapis.com/Location", "projects/{project}/locations/{location}"),
+                   ("cloudresourcemanager.googleapis.com/Project", "projects/{project}"),
+                   ("cloudresourcemanager.googleapis.com/Folder", "folders/{folder}"),
+                   ("cloudresourcemanager.googleapis.com/Organization", "organizations/{organization}"),
+                   ("cloudbilling.googleapis.com/BillingAccount", "billingAccounts/{billing_account}")]
+        by_name = {"." + api.main.proto.package + "." + m.name: m for m in api.main.proto.message_type}
+        svc = r.choice(api.services).proto
+        cands = sorted({t for meth in svc.method for t in (meth.input_type, meth.output_type) if t in by_name})
+        if cands:
+            tgt = by_name[r.choice(cands)]
+            for n, (typ, pat) in enumerate(r.sample(commons, r.randint(1, 3))):
+                api.main.resource_def(typ, [pat])
+                f = tgt.field.add(); f.name, f.number, f.label, f.type = "common_ref_%d" % n, 85 + n, 1, 9
+                ref = f.options.Extensions[resource_pb2.resource_reference]
+                if n % 2:
+                    ref.child_type = typ
+                else:
+                    ref.type = typ
     api.extra = []
     if r.random() < 0.6:
         # resources DECLARED in a dependency package's file (not generated), reached only through references
